@@ -49,7 +49,7 @@ func sensitivityAudit(verif, prop string) []map[string]interface{} {
 			switch {
 			case strings.HasPrefix(e.Name(), prop+"_"):
 				jobs = append(jobs, job{"seed " + e.Name(), patch, "fire?"})
-			case strings.HasPrefix(e.Name(), "ref_"), strings.HasPrefix(e.Name(), "ref3_"), strings.HasPrefix(e.Name(), "ref4_"):
+			case strings.HasPrefix(e.Name(), "ref"):
 				jobs = append(jobs, job{"refactoring " + e.Name(), patch, "silent"})
 			}
 		}
